@@ -90,7 +90,12 @@ def equal(a, b, ordered=False, check_index=True, check_names=True):
     pb = [_payload(b, i, use_index) for i in range(b.nslots)]
     functional = all(not (isinstance(p, tuple) and p and p[0] in ("g", "vc", "scalar", "red")) for p in list(a.prov) + list(b.prov))
     if not functional:
-        return equal_sequence(a, b, check_index) if ordered else equal_multiset(a, b, check_index)
+        if ordered:
+            return equal_sequence(a, b, check_index)
+        grouped = all(isinstance(p, tuple) and p and p[0] in ("g", "vc") for p in list(a.prov) + list(b.prov))
+        if grouped and use_index:
+            return equal_keyed_by_index(a, b, pa, pb)
+        return equal_multiset(a, b, check_index)
     return _keyed(a, b, pa, pb, ordered)
 
 
@@ -117,6 +122,24 @@ def _keyed(a, b, pa, pb, ordered):
                 if ordered:
                     same = And(same, ra[i] == rb[j])
                 conj.append(Or(Not(both), same))
+    return And(*conj)
+
+
+def equal_keyed_by_index(a, b, pa, pb):
+    """both results hold one row per distinct index label (groupby / value_counts outputs): every valid row has a valid
+    row with the same label and payload on the other side; no label occurs twice on a side"""
+    conj = []
+    for X, px, Y, py in ((a, pa, b, pb), (b, pb, a, pa)):
+        for i in range(X.nslots):
+            match = [And(Y.valid[j], _payload_eq(px[i], py[j])) for j in range(Y.nslots)]
+            conj.append(Or(Not(X.valid[i]), Or(*match)))
+        # uniqueness of labels on this side (the last payload component is the index label)
+        for i in range(X.nslots):
+            for j in range(i + 1, X.nslots):
+                li, lj = px[i][-1], px[j][-1]
+                if isinstance(li, tuple) or isinstance(lj, tuple):
+                    continue
+                conj.append(Or(Not(X.valid[i]), Not(X.valid[j]), Not(cell_eq(li, lj))))
     return And(*conj)
 
 
